@@ -10,6 +10,7 @@ import (
 	"math/rand"
 	"os"
 	"path/filepath"
+	"regexp"
 	"sort"
 	"strings"
 )
@@ -108,10 +109,10 @@ func abstractOps(base string, ops []FSOp) []any {
 }
 
 type fsStats struct {
-	Protocol                                                                        []M // recorded runs abstracted for the protocol-conformance check (GoitFSTrace)
-	CrashPoints, FaultPoints, Unreached, KillChecked, KillMismatch, Commands, Drift, Retries int
-	ByCmd                                                                           map[string]int
-	Samples                                                                         []any
+	Protocol                                                                                 []M // recorded runs abstracted for the protocol-conformance check (GoitFSTrace)
+	CrashPoints, FaultPoints, Unreached, KillChecked, KillMismatch, Commands, Drift, Retries, Moved int
+	ByCmd                                                                                    map[string]int
+	Samples                                                                                  []any
 }
 
 // fsEnumerate executes the events of one corpus trace; for every modifying goit command it enumerates
@@ -269,7 +270,7 @@ func fsEnumerate(goit string, c *Chunk, evs []M, contents map[string][]byte, tz 
 					os.Remove(klog)
 					hit := false
 					for i := range kops {
-						if kops[i].Syscall == next.Syscall && kops[i].Ord == next.Ord && strings.TrimPrefix(kops[i].Path, kd) == strings.TrimPrefix(next.Path, base) {
+						if kops[i].Syscall == next.Syscall && kops[i].Ord == next.Ord && sameModTmp(strings.TrimPrefix(kops[i].Path, kd), strings.TrimPrefix(next.Path, base)) {
 							hit = true
 						}
 					}
@@ -298,6 +299,7 @@ func fsEnumerate(goit string, c *Chunk, evs []M, contents map[string][]byte, tz 
 					continue
 				}
 				for _, errno := range mode.Errnos[o.Kind] {
+					cur := o // the call that fails in this run (the intended one, or the one the fault really landed on)
 					fd, _ := os.MkdirTemp(scratchBase(), "vflt")
 					copyTree(preDir, fd)
 					fr := runnerAt(goit, fd, c.T, r.TZ)
@@ -306,11 +308,43 @@ func fsEnumerate(goit string, c *Chunk, evs []M, contents map[string][]byte, tz 
 					os.Remove(flog)
 					hit := false
 					for i := range fops {
-						if fops[i].Injected && fops[i].Syscall == o.Syscall && strings.TrimPrefix(fops[i].Path, fd) == strings.TrimPrefix(o.Path, base) {
+						if fops[i].Injected && fops[i].Syscall == cur.Syscall && sameModTmp(strings.TrimPrefix(fops[i].Path, fd), strings.TrimPrefix(cur.Path, base)) {
 							hit = true
 						}
 					}
 					if !hit {
+						// strace counts calls per thread and the Go runtime moves goroutines between threads, so the fault may land
+						// on another call than the intended one. If exactly one call on a repository path was made to fail, the run
+						// is still a single-fault run: it is judged as a fault at the position where it really happened.
+						var act *FSOp
+						nInj := 0
+						for i := range fops {
+							if fops[i].Injected {
+								nInj++
+								rel := strings.TrimPrefix(fops[i].Path, fd)
+								if strings.HasPrefix(rel, "/root/") || strings.HasPrefix(rel, "/home/") {
+									act = &fops[i]
+								}
+							}
+						}
+						if nInj == 1 && act != nil {
+							moved := *act
+							moved.Path = base + strings.TrimPrefix(act.Path, fd)
+							cur = &moved
+							hit = true
+							stats.Moved++
+						}
+					}
+					if !hit {
+						if os.Getenv("VERIF_DEBUG") == "2" {
+							inj := ""
+							for i := range fops {
+								if fops[i].Injected {
+									inj += fmt.Sprintf(" [%s %s]", fops[i].Syscall, strings.TrimPrefix(fops[i].Path, fd))
+								}
+							}
+							fmt.Fprintf(os.Stderr, "UNREACHED %s %s ord=%d %s %s | injected:%s\n", name, cur.Syscall, cur.Ord, cur.Kind, strings.TrimPrefix(cur.Path, base), inj)
+						}
 						stats.Unreached++
 						os.RemoveAll(fd)
 						continue
@@ -330,15 +364,15 @@ func fsEnumerate(goit string, c *Chunk, evs []M, contents map[string][]byte, tz 
 						e = e[:300]
 					}
 					step["err"] = Esc(e)
-					step["fault"] = M{"sys": o.Syscall, "errno": errno, "kind": o.Kind, "fclass": fileClass(base, o.Path), "name": EscS(strings.TrimPrefix(o.Path, base+"/")), "ord": o.Ord, "seq": oi}
+					step["fault"] = M{"sys": cur.Syscall, "errno": errno, "kind": cur.Kind, "fclass": fileClass(base, cur.Path), "name": EscS(strings.TrimPrefix(cur.Path, base+"/")), "ord": cur.Ord, "seq": oi}
 					step["cmdres"] = x.Res
 					sl := emit(step)
-					ref.Events = append(ref.Events, M{"ev": "fault", "at": ei, "sys": o.Syscall, "errno": errno, "ord": o.Ord, "path": strings.TrimPrefix(o.Path, base+"/")})
+					ref.Events = append(ref.Events, M{"ev": "fault", "at": ei, "sys": cur.Syscall, "errno": errno, "ord": cur.Ord, "path": strings.TrimPrefix(cur.Path, base+"/")})
 					ref.StepLine = append(ref.StepLine, sl)
 					stats.FaultPoints++
 					stats.ByCmd[name]++
 					if len(stats.Samples) < 4 {
-						stats.Samples = append(stats.Samples, M{"command": describeEv(ev), "fault": errno + " on " + o.Syscall + " #" + fmt.Sprint(o.Ord), "target": o.Kind + " " + fileClass(base, o.Path), "result": fx.Res})
+						stats.Samples = append(stats.Samples, M{"command": describeEv(ev), "fault": errno + " on " + cur.Syscall + " #" + fmt.Sprint(cur.Ord), "target": cur.Kind + " " + fileClass(base, cur.Path), "result": fx.Res})
 					}
 					os.RemoveAll(fd)
 				}
@@ -403,4 +437,11 @@ func sameModuloTmpNames(a, b M, shapeOnly bool) bool {
 		return strings.Join(parts, ";") + "|" + strings.Join(tmps, ";") + "|" + j(st["wt"]) + j(st["idx"]) + j(st["objs"]) + j(st["refs"]) + j(st["head"]) + j(st["hlog"]) + j(st["blog"]) + j(st["cfgl"]) + j(st["cfgg"])
 	}
 	return norm(a) == norm(b)
+}
+
+var tmpNameRe = regexp.MustCompile(`tmp-[0-9]+-[0-9]+`)
+
+// sameModTmp compares two paths up to the names of temporary files (tmp-<pid>-<nanoseconds>), which differ from run to run.
+func sameModTmp(a, b string) bool {
+	return tmpNameRe.ReplaceAllString(a, "tmp-*") == tmpNameRe.ReplaceAllString(b, "tmp-*")
 }
